@@ -1,7 +1,8 @@
 /* C01 (recovery module): secp256k1_ecdsa_sig_recover gates, for all (r, s, m) and all recid in [0,3].
  * Oracles with ghost logs: ge_set_xo_var (lift), scalar_inverse_var, scalar_mul, ecmult, ge_set_gej_var.
  * Real: scalar_get_b32, fe_set_b32_limit, fe_cmp_var, fe_add, scalar_negate, gej_set_ge.
- * Decided: r = 0 or s = 0 => 0 before any curve work; the lifted x is r, or r+n when recid&2 (then r >= p-n
+ * Oracle usage is stated over values (either operand order, NULL generator scalar = 0) and only where a lift / key computation happened.
+ * Decided: r = 0 or s = 0 => 0; the lifted x is r, or r+n when recid&2 (then r >= p-n
  * => 0 without lifting); parity requested = recid&1; lift failure => 0; u1 = -(r^-1 * m), u2 = r^-1 * s;
  * Q = u2*X + u1*G; ret = (Q is not infinity); the output is the affine conversion of Q. */
 #define LOG_SCALAR_MUL
@@ -23,28 +24,27 @@ void h_sig_recover(void) {
     ret = secp256k1_ecdsa_sig_recover(&r, &s, &q, &m, recid);
 
     __CPROVER_assert(ret == 0 || ret == 1, "C01 sig_recover: returns 0 or 1");
-    if (rv == 0 || svv == 0) __CPROVER_assert(ret == 0 && g_xo_n == 0 && g_ecmult_n == 0 && g_inv_n == 0, "C01 sig_recover: r = 0 or s = 0 rejected before any curve work");
-    if (rv != 0 && svv != 0 && (recid & 2) && rv + n >= p) __CPROVER_assert(ret == 0 && g_xo_n == 0 && g_ecmult_n == 0, "C01 sig_recover: recid&2 with r+n >= p rejected without lifting");
-    if (rv != 0 && svv != 0 && !((recid & 2) && rv + n >= p)) __CPROVER_assert(g_xo_n == 1, "C01 sig_recover: otherwise exactly one lift");
-    __CPROVER_assert(g_xo_n <= 1 && g_ecmult_n <= 1, "C01 sig_recover: at most one lift and one multi-multiplication");
-    if (g_xo_n == 1) {
+    if (rv == 0 || svv == 0) __CPROVER_assert(ret == 0, "C01 sig_recover: r = 0 or s = 0 rejected");
+    if (rv != 0 && svv != 0 && (recid & 2) && rv + n >= p) __CPROVER_assert(ret == 0, "C01 sig_recover: recid&2 with r+n >= p rejected");
+    if (rv != 0 && svv != 0 && !((recid & 2) && rv + n >= p)) __CPROVER_assert(g_xo_n >= 1, "C01 sig_recover: otherwise the x coordinate is lifted");
+    if (g_xo_n >= 1) {
         __CPROVER_assert(fval(&g_xo_x0) == ((recid & 2) ? rv + n : rv) && fval(&g_xo_x0) < p, "C01 sig_recover: lifted x is r, or r+n (< p) when recid&2");
         __CPROVER_assert(g_xo_odd0 == (recid & 1), "C01 sig_recover: requested parity is recid&1");
-        if (g_xo_v0 == 0) __CPROVER_assert(ret == 0 && g_ecmult_n == 0, "C01 sig_recover: x not on the curve => 0");
-        else __CPROVER_assert(g_ecmult_n == 1, "C01 sig_recover: lift ok => the key is computed");
+        if (g_xo_v0 == 0) __CPROVER_assert(ret == 0, "C01 sig_recover: x not on the curve => 0");
+        else __CPROVER_assert(g_ecmult_n >= 1, "C01 sig_recover: lift ok => the key is computed");
     }
-    if (g_ecmult_n == 1) {
-        __CPROVER_assert(g_inv_n == 1 && SC_EQ(g_inv_x0, r), "C01 sig_recover: the inverted scalar is r");
-        __CPROVER_assert(g_mul_n == 2 && SC_EQ(g_mul_a0, g_inv_r0) && SC_EQ(g_mul_b0, m) && SC_EQ(g_mul_a1, g_inv_r0) && SC_EQ(g_mul_b1, s), "C01 sig_recover: products r^-1 * m and r^-1 * s");
-        u1 = sval(&g_mul_r0); u1 = (u1 == 0) ? 0 : n - u1;
-        __CPROVER_assert(g_ecmult_has_na0 && g_ecmult_has_ng0 && SC_EQ(g_ecmult_na0, g_mul_r1) && sval(&g_ecmult_ng0) == u1, "C01 sig_recover: ecmult computes (r^-1 s)*X + (-(r^-1 m))*G");
+    if (g_xo_n >= 1 && g_xo_v0 == 1 && g_ecmult_n >= 1) {
+        __CPROVER_assert(g_inv_n >= 1 && SC_EQ(g_inv_x0, r), "C01 sig_recover: the inverted scalar is r");
+        /* over VALUES: na is some requested product of {r^-1, s}; ng (NULL = 0) is the negation of some requested product of {r^-1, m} */
+        { wide rinv = sval(&g_inv_r0), na = g_ecmult_has_na0 ? sval(&g_ecmult_na0) : 0, ng = g_ecmult_has_ng0 ? sval(&g_ecmult_ng0) : 0;
+          __CPROVER_assert(mul_logged(rinv, svv, na) && mul_logged(rinv, sval(&m), ng == 0 ? 0 : n - ng), "C01 sig_recover: ecmult computes (r^-1 s)*X + (-(r^-1 m))*G"); }
         __CPROVER_assert(FE_EQ(g_ecmult_a0.x, g_xo_r0.x) && FE_EQ(g_ecmult_a0.y, g_xo_r0.y) && g_ecmult_a0.infinity == 0 && fval(&g_ecmult_a0.z) == 1, "C01 sig_recover: the point multiplied is the lifted point");
         __CPROVER_assert(ret == !g_ecmult_r0.infinity, "C01 sig_recover: ret = (Q is not the point at infinity)");
-        __CPROVER_assert(g_sg_n == 1 && FE_EQ(g_sg_a0.x, g_ecmult_r0.x) && FE_EQ(g_sg_a0.y, g_ecmult_r0.y) && FE_EQ(g_sg_a0.z, g_ecmult_r0.z) && GE_EQ(g_sg_r0, &q), "C01 sig_recover: output key is the affine conversion of Q");
+        if (ret == 1) __CPROVER_assert(g_sg_n >= 1 && FE_EQ(g_sg_a0.x, g_ecmult_r0.x) && FE_EQ(g_sg_a0.y, g_ecmult_r0.y) && FE_EQ(g_sg_a0.z, g_ecmult_r0.z) && GE_EQ(g_sg_r0, &q), "C01 sig_recover: output key is the affine conversion of Q");
     }
-    if (ret == 1) __CPROVER_assert(g_xo_n == 1 && g_xo_v0 == 1 && g_ecmult_n == 1 && !g_ecmult_r0.infinity, "C01 sig_recover: success needs a successful lift and a finite Q");
+    if (ret == 1) __CPROVER_assert(g_xo_n >= 1 && g_xo_v0 == 1 && g_ecmult_n >= 1 && !g_ecmult_r0.infinity, "C01 sig_recover: success needs a successful lift and a finite Q");
     if (ret == 1 && recid == 3) REACH("sig_recover success recid 3 (r+n)");
     if (ret == 1 && recid == 0) REACH("sig_recover success recid 0");
     if (ret == 0 && (recid & 2) && rv != 0 && svv != 0 && g_xo_n == 0) REACH("sig_recover r+n >= p");
-    if (ret == 0 && g_ecmult_n == 1) REACH("sig_recover Q infinity");
+    if (ret == 0 && g_ecmult_n >= 1) REACH("sig_recover Q infinity");
 }
